@@ -232,6 +232,10 @@ func (g *gen) polygon() string {
 func (g *gen) rectPolygon() string {
 	t := g.t
 	x0, y0 := rapid.IntRange(-5, 5).Draw(t, "rx0"), rapid.IntRange(-5, 5).Draw(t, "ry0")
+	// one rectangle in six sits at the edge of the lon/lat range: some of them reach outside it
+	// (RequireValid together with AllowRects)
+	off := rapid.SampledFrom([][2]int{{0, 0}, {0, 0}, {0, 0}, {0, 0}, {0, 0}, {0, 0}, {0, 0}, {0, 0}, {177, 0}, {0, 86}, {-180, 0}, {0, -89}}).Draw(t, "roff")
+	x0, y0 = x0+off[0], y0+off[1]
 	x1, y1 := x0+rapid.IntRange(0, 6).Draw(t, "rw"), y0+rapid.IntRange(0, 6).Draw(t, "rh")
 	pts := [][2]int{{x0, y0}, {x1, y0}, {x1, y1}, {x0, y1}, {x0, y0}}
 	if rapid.IntRange(0, 3).Draw(t, "rrev") == 0 {
